@@ -16,7 +16,8 @@ EXPLANATION = (
     "negative, and a jump and its label see the same depth; (R5) statement marks after user blocks; "
     "(R6) every VM container is used at the end its role prescribes; (R7) label names are built from one "
     "delimited template; (R8) register liveness: a register read by an emitted instruction is not "
-    "overwritten by user code emitted since the template set it; (R9) the error edges of the "
+    "overwritten by user code emitted since the template set it, and a comparison / arithmetic result in A "
+    "is read before the next instruction overwrites it; (R9) the error edges of the "
     "fetch-execute loop leave the context stack as the failing statement found it (shared with C05.R6).")
 NOT_DECIDED = [
     "well-formedness of the instruction list for one given program (that is a run of the generator)",
@@ -98,7 +99,8 @@ def r1_single_emission(ctx, rule="C15.R1"):
                 ctx.ok(rule, key, loc, "clone and original do not both reach an emitter")
     ctx.analysed_units(rule, clone_sites=n_clone_sites,
                        statement_holders=sorted(prog.adts[h]["path"].split("::")[-1] for h in holders))
-    ctx.require(rule, 2)
+    # blocks are emitted by value: without a clone a block cannot reach two emitters (ownership)
+    ctx.require(rule, 1)
 
 
 def _is_clone_of(o, src):
@@ -268,7 +270,7 @@ def r4_template_depths(ctx, rule="C15.R4"):
                    "depth never drops below the construct's entry depth",
                    "%s pops below its entry depth: lowest relative depth %s" % (f.name, templates.vec_str(low)))
     # helper emitters must be single-valued
-    for (fid, ca), s in sorted(T.cf.memo.items()):
+    for (fid, ca), s in sorted(T.cf.memo.items(), key=lambda kv: (kv[0][0], repr(kv[0][1]))):
         f = prog.fns[fid]
         if (fid, ca) in seen:
             continue
@@ -349,6 +351,9 @@ def register_effects(prog):
     return table
 
 
+# instructions whose only effect is a result in A
+BINARY_RESULT = ("Less", "LessOrEqual", "Equal", "GreaterOrEqual", "Greater", "NotEqual",
+                 "Plus", "Minus", "Multiply", "Divide", "Modulo", "And", "Or")
 # expression evaluation uses A (result) and B (second operand of a binary operator)
 EXPR_CLOBBERS = {"a", "b"}
 ALL_REGS = {"a", "b", "c", "d"}
@@ -373,6 +378,8 @@ def r8_register_liveness(ctx, rule="C15.R8"):
     exc = json.load(open(os.path.join(VERIF, "tables", "register_clobber_exceptions.json")))["a_only_generators"]
     gens = {f.id: f for f in emit.generator_fns(prog)}
     summaries = {}
+    a_firsts = {}
+    pendings = {}
 
     def transfer(e, depth_holder):
         """(reads, {reg: status}) of one event; status 'set' / 'clobbered'"""
@@ -388,7 +395,7 @@ def r8_register_liveness(ctx, rule="C15.R8"):
             return set(), dict(summary(e.callee))
         return set(), {}
 
-    def flow(f, on_read=None):
+    def flow(f, on_read=None, on_dead=None):
         """may-dataflow over the emitted code of one emission path: fall-through and jumps to the
         labels of the same path.  Returns the merged exit state {reg: set of statuses}."""
         exit_state = {}
@@ -422,10 +429,32 @@ def r8_register_liveness(ctx, rule="C15.R8"):
                     for r in sorted(reads):
                         if "clobbered" in st.get(r, ()):
                             on_read(e, r, st[r + "#by"])
-                new = {k: set(v) if not k.endswith("#by") else v for k, v in st.items()}
+                    # a comparison / arithmetic result in A that is overwritten before anything read it
+                    pend = st.get("a#pending")
+                    reads_a = (e.kind == "push" and "a" in table.get(e.instr, (set(), set()))[0]) or \
+                        e.kind in ("jump_if_false", "BLOCK", "STMT") or \
+                        (e.kind == "gen" and a_first(e.callee) != "write")
+                    if pend and not reads_a and "a" in effect and on_dead is not None:
+                        on_dead(e, pend)
+                new = {k: (set(v) if not (k.endswith("#by") or k.endswith("#pending") or k.endswith("#first")) else v)
+                       for k, v in st.items()}
                 for r, status in effect.items():
                     new[r] = {status}
                     new[r + "#by"] = (e.show(), e.line)
+                touches_a = (e.kind == "push" and ("a" in table.get(e.instr, (set(), set()))[0] or "a" in effect)) \
+                    or e.kind in ("jump_if_false", "gen", "BLOCK", "STMT", "EXPR")
+                if "a#first" not in new and touches_a:
+                    reads_first = (e.kind == "push" and "a" in table.get(e.instr, (set(), set()))[0]) or \
+                        e.kind in ("jump_if_false", "BLOCK", "STMT") or \
+                        (e.kind == "gen" and a_first(e.callee) != "write")
+                    new["a#first"] = "read" if reads_first else "write"
+                if e.kind == "push" and e.instr in BINARY_RESULT:
+                    new["a#pending"] = (e.instr, e.line)
+                elif e.kind == "gen" and ends_pending(e.callee):
+                    new["a#pending"] = (ends_pending(e.callee), e.line)
+                elif "a#pending" in new and touches_a:
+                    # read or overwritten: either way no longer pending
+                    new.pop("a#pending", None)
                 succs = []
                 if e.kind in ("jump", "jump_if_false") and e.name in labels_at:
                     succs.append(labels_at[e.name])
@@ -440,6 +469,12 @@ def r8_register_liveness(ctx, rule="C15.R8"):
                         merged = dict(old)
                         changed = False
                         for k, v in new.items():
+                            if k.endswith("#pending") or k.endswith("#first"):
+                                if k.endswith("#first") and merged.get(k) != v:
+                                    # differs between paths: a path that reads first makes the callee a reader
+                                    if merged.get(k) is None or v == "read":
+                                        merged[k] = v if merged.get(k) in (None, "write") and v == "read" else merged.get(k, v)
+                                continue
                             if k.endswith("#by"):
                                 if k not in merged:
                                     merged[k] = v
@@ -450,13 +485,23 @@ def r8_register_liveness(ctx, rule="C15.R8"):
                                 changed = True
                                 if "clobbered" in v:
                                     merged[k + "#by"] = new.get(k + "#by")
+                        if "a#pending" in new and "a#pending" not in merged:
+                            # a result that is unread on one incoming path is still unread on that path
+                            merged["a#pending"] = new["a#pending"]
+                            changed = True
                         if changed:
                             states[j] = merged
                             work.append(j)
             end = states[n_ev] or {}
             for k, v in end.items():
-                if not k.endswith("#by"):
+                if k.endswith("#first") or k.endswith("#pending"):
+                    exit_state.setdefault(k, set()).add(v)
+                elif not k.endswith("#by"):
                     exit_state.setdefault(k, set()).update(v)
+            if "a#first" not in end:
+                exit_state.setdefault("a#first", set()).add(None)
+            if "a#pending" not in end:
+                exit_state.setdefault("a#pending", set()).add(None)
         return exit_state
 
     def summary(f, _seen=[]):
@@ -464,6 +509,8 @@ def r8_register_liveness(ctx, rule="C15.R8"):
             return summaries[f.id]
         if f.name in exc:
             summaries[f.id] = {"a": "set"}
+            a_firsts[f.id] = "write"
+            pendings[f.id] = None
             return summaries[f.id]
         if f.id in _seen:
             return {}
@@ -472,9 +519,21 @@ def r8_register_liveness(ctx, rule="C15.R8"):
             ex = flow(f)
         finally:
             _seen.pop()
-        out = {r: ("clobbered" if "clobbered" in v else "set") for r, v in ex.items()}
+        out = {r: ("clobbered" if "clobbered" in v else "set") for r, v in ex.items() if "#" not in r}
+        firsts = ex.get("a#first", {None})
+        a_firsts[f.id] = "write" if firsts == {"write"} else "read"
+        pend = ex.get("a#pending", {None})
+        pendings[f.id] = "/".join(sorted({p[0] for p in pend})) if None not in pend else None
         summaries[f.id] = out
         return out
+
+    def a_first(f):
+        summary(f)
+        return a_firsts.get(f.id, "read")
+
+    def ends_pending(f):
+        summary(f)
+        return pendings.get(f.id)
 
     n = 0
     for f in sorted(gens.values(), key=lambda x: x.id):
@@ -486,7 +545,10 @@ def r8_register_liveness(ctx, rule="C15.R8"):
         def on_read(e, r, by):
             bad.append("%s (line %s) can read register %s after %s (line %s) overwrote it" % (
                 e.instr, e.line, r.upper(), by[0], by[1]))
-        flow(f, on_read)
+        def on_dead(e, pend):
+            bad.append("the result of %s (line %s) in register A is overwritten by %s (line %s) before anything "
+                       "reads it" % (pend[0], pend[1], e.show(), e.line))
+        flow(f, on_read, on_dead)
         n += 1
         ctx.decide(not bad, rule, "%s:%s" % (rule, f.name), f.loc,
                    "every register read follows its own definition",
